@@ -16,7 +16,7 @@ inline Prog decode(hz::Reader &r) {
     for (unsigned i = 0; i < n; i++) {
         std::vector<Step> s; unsigned len = r.mod(7); bool owns = false;
         for (unsigned k = 0; k < len; k++) {
-            Step x; x.kind = (uint8_t)r.mod(S_COUNT); x.arg = (uint8_t)r.mod(x.kind == S_START_NESTED ? 12 : NF);
+            Step x; x.kind = (uint8_t)r.mod(S_COUNT); x.arg = (uint8_t)r.mod(x.kind == S_START_NESTED ? 24 : NF);
             if (x.kind == S_LOCK) { if (owns) x.kind = S_PAUSE; else owns = true; }
             else if (x.kind == S_UNLOCK_DISCARD || x.kind == S_UNLOCK_AWAIT) { if (!owns) x.kind = S_SPAWN; else owns = false; }
             s.push_back(x);
@@ -29,7 +29,7 @@ inline Prog decode(hz::Reader &r) {
     return p;
 }
 static const char *sn[] = {"spawn+detach", "pause", "resolve(discard)", "co_await resolve", "resolve(kept, released later)", "await future", "lock", "unlock(discard)", "co_await unlock", "push", "pop",
-                           "start() a child that runs nested and finishes without suspending",
+                           "start() a child that runs nested and finishes without suspending (or suspends on a private future and is released by the parent)",
                            "coro_queue::install_queue_and_call (explicit nested activation: flushes the queue before it returns)"};
 inline std::string describe(const Prog &p) {
     hz::Desc d; d << (unsigned)p.co.size() << " coroutines;";
@@ -82,6 +82,8 @@ struct World {
     const Prog *p; Model m;
     std::unique_ptr<cocls::future<int>> fut[NF]; cocls::promise<int> prom[NF];
     cocls::mutex mx; cocls::queue<int> q;
+    // children started nested that suspend on a private gate: gate and result future outlive the parent's frame
+    std::vector<std::unique_ptr<cocls::future<int>>> nested_gates; std::vector<std::unique_ptr<cocls::future<void>>> nested_results;
     int resumes_while_running = 0;
     bool running_flag[MAXC] = {};
     int step_events = 0;
@@ -119,7 +121,10 @@ inline cocls::async<void> script(World *w, int id);
 // child started with start() from inside a running coroutine: documented to run immediately, nested, like a
 // function call.  It performs only non-suspending steps (it may ready other coroutines) and finishes: control
 // must come back to the parent - nothing that is queued may run in between.
-inline cocls::async<void> nested_child(World *w, int parent, int cid, uint8_t a) {
+// Variant (gate != nullptr): after its step the child suspends on a pending private future.  Control must come
+// back to the PARENT (the child was entered by a plain nested resume, the parent has not suspended); the child is
+// continued from the queue after the parent released the gate.
+inline cocls::async<void> nested_child(World *w, int parent, int cid, uint8_t a, cocls::future<int> *gate = nullptr) {
     Model &m = w->m;
     w->on_run(cid, "nested child start");
     int j = a % NF;
@@ -127,6 +132,13 @@ inline cocls::async<void> nested_child(World *w, int parent, int cid, uint8_t a)
         case 0: m.add_batch(w->model_resolve(j)); w->prom[j](1); break;
         case 1: m.add_batch(w->model_push()); w->q.push(5); break;
         default: break;
+    }
+    if (gate) {
+        m.running = parent;          // suspending: the nested resume() returns to the parent, nobody else may run
+        int v = co_await *gate; (void)v;
+        w->on_run(cid, "nested child continued from the queue");
+        w->model_suspend();          // finishes as an ordinary queued coroutine
+        co_return;
     }
     w->on_run(cid, "nested child finish");
     m.running = parent;              // the nested resume() returns to the parent
@@ -181,6 +193,15 @@ inline cocls::async<void> script(World *w, int id) {
             case S_START_NESTED: {
                 int cid = 100 + id * 8 + (int)i;
                 m.running = cid;
+                if (s.arg >= 12) {
+                    w->nested_gates.emplace_back(new cocls::future<int>()); cocls::promise<int> gp = w->nested_gates.back()->get_promise();
+                    w->nested_results.emplace_back(new cocls::future<void>(nested_child(w, id, cid, (uint8_t)(s.arg - 12), w->nested_gates.back().get()).start()));
+                    HZ_CHECK(!w->nested_results.back()->ready(), "a child that suspended on a pending future is reported finished");
+                    HZ_CHECK(m.running == id, "start() of a child that suspends returned to C%d while the model has C%d running", id, m.running);
+                    w->on_run(id, "after the nested start() of a suspending child returned");
+                    m.add_batch({cid}); gp(1);            // release it: queued behind everything that is already ready
+                    break;
+                }
                 cocls::future<void> f = nested_child(w, id, cid, s.arg).start();
                 HZ_CHECK(f.ready(), "a child that never suspends was not finished when start() returned");
                 w->on_run(id, "after the nested start() returned");
@@ -237,6 +258,7 @@ inline void run(hz::Reader &r) {
         HZ_CHECK(m.finished == (int)p.co.size(), "%d of %zu coroutines finished", m.finished, p.co.size());
         for (int j = 0; j < NF; j++) if (!m.fut_resolved[j]) { w->prom[j](1); m.fut_resolved[j] = true; }
         w->check_drained("end");
+        for (auto &f : w->nested_results) HZ_CHECK(f->ready(), "a nested child that was released did not finish");
         readied = m.readied_by_discard; maxq = m.max_ready; events = w->step_events;
     }
     hz::set_class(p.co.size() >= 3 ? (maxq >= 2 ? 2 : 1) : 0);
@@ -251,7 +273,7 @@ namespace hz {
 static const Info I = {
     "C05", 1, 130, 100000, false, true,
     "stateful byte-decoded programs (rapidcheck), single thread: 1..8 scripted coroutines with up to 6 steps each over {spawn+detach child, pause, resolve promise j with the suspend point discarded / co_awaited / kept and released later, "
-    "await future j, mutex lock, unlock discarded / co_awaited, queue push, queue pop}, driven by 1..4 operations from ordinary code (spawn, resolve, push) and then settled until every coroutine finished. Oracle = online comparison with a reference "
+    "await future j, mutex lock, unlock discarded / co_awaited, queue push, queue pop, start() of a child that runs nested (finishing at once, or suspending on a private future: control returns to the parent, the child continues from the queue), explicit nested activation}, driven by 1..4 operations from ordinary code (spawn, resolve, push) and then settled until every coroutine finished. Oracle = online comparison with a reference "
     "model of the ready queue (FIFO of batches; the order inside the batch readied by ONE operation is not asserted): a coroutine may only gain control when the model says the running one suspended/finished and it is in the front batch "
     "(run-to-suspension, FIFO, pause = strict round-robin), co_await on a suspend point transfers to one of its coroutines, queues the others and re-queues the awaiting one last, nobody runs between resolving and releasing a kept suspend point, "
     "and every return to ordinary code finds the model queue empty and coro_queue inactive (full drain); allocation balance 0. Non-trivial = >=3 coroutines and >=1 coroutine readied through a discarded suspend point; distinct = hash(decoded program).",
